@@ -235,7 +235,9 @@ pub fn exec(req: &[String], out: &mut Out) {
         if is_bin {
             let (lines, how) = &results[idx];
             let mut answers = vec![];
+            let mut rewritten: std::collections::BTreeMap<usize, String> = Default::default();
             for l in lines {
+                if let Some(r) = l.strip_prefix("!req ") { rewritten.insert(answers.len(), r.to_string()); continue; }
                 if let Some(j) = l.strip_prefix("!oracle ") {
                     let v: serde_json::Value = serde_json::from_str(j).unwrap();
                     out.oracle_fail(v["key"].as_str().unwrap(), v["what"].as_str().unwrap(), v["replay"].clone());
@@ -243,7 +245,7 @@ pub fn exec(req: &[String], out: &mut Out) {
             }
             out.oracle_evals += answers.len() as u64;
             if how != "ok" { out.oracle_fail("debugger-crashed-or-hung", &format!("worker ended with {how}"), json!({"session": bins[idx][0]})); }
-            for (k, l) in bins[idx].iter().enumerate() { out.pair(l.clone(), answers.get(k).cloned().unwrap_or_else(|| format!("worker-{how}"))); }
+            for (k, l) in bins[idx].iter().enumerate() { out.pair(rewritten.get(&k).unwrap_or(l).clone(), answers.get(k).cloned().unwrap_or_else(|| format!("worker-{how}"))); }
         } else {
             for k in 0..len { out.pair(plain_out.req[pi + k].clone(), plain_out.imp[pi + k].clone()); }
             pi += len;
